@@ -420,29 +420,64 @@ func runReserved(c *core.Ctx) {
 		if fd.Name.Name != "RepoGet" {
 			continue
 		}
-		ast.Inspect(fd.Body, func(n ast.Node) bool {
-			ifs, ok := n.(*ast.IfStmt)
-			if !ok {
-				return true
+		mentionsRefusal := func(stmts []ast.Stmt) bool {
+			m := false
+			for _, st := range stmts {
+				ast.Inspect(st, func(x ast.Node) bool {
+					if se, ok := x.(*ast.SelectorExpr); ok && se.Sel.Name == "ErrRepoNotAllowed" {
+						m = true
+					}
+					return true
+				})
 			}
-			mentions := false
-			ast.Inspect(ifs.Body, func(x ast.Node) bool {
-				if se, ok := x.(*ast.SelectorExpr); ok && se.Sel.Name == "ErrRepoNotAllowed" {
-					mentions = true
-				}
-				return true
-			})
-			if !mentions {
-				return true
-			}
-			ast.Inspect(ifs.Cond, func(x ast.Node) bool {
-				if e, ok := x.(ast.Expr); ok {
-					if s, ok := constString(sp, e); ok {
+			return m
+		}
+		// constants of an expression; a call of a function of the store package contributes the constants that
+		// function compares with (a ‘is reserved’ predicate holding the list itself)
+		var collect func(e ast.Node, depth int)
+		collect = func(e ast.Node, depth int) {
+			ast.Inspect(e, func(x ast.Node) bool {
+				if ex, ok := x.(ast.Expr); ok {
+					if s, ok := constString(sp, ex); ok {
 						reserved[s] = true
+					}
+				}
+				if call, ok := x.(*ast.CallExpr); ok && depth < 2 {
+					if id, ok := call.Fun.(*ast.Ident); ok {
+						if hd := findFunc(sp, "", id.Name); hd != nil && hd.Body != nil {
+							ast.Inspect(hd.Body, func(y ast.Node) bool {
+								switch z := y.(type) {
+								case *ast.BinaryExpr:
+									if z.Op == token.EQL || z.Op == token.NEQ {
+										collect(z, depth+1)
+									}
+								case *ast.CaseClause:
+									for _, le := range z.List {
+										collect(le, depth+1)
+									}
+								}
+								return true
+							})
+						}
 					}
 				}
 				return true
 			})
+		}
+		ast.Inspect(fd.Body, func(n ast.Node) bool {
+			switch x := n.(type) {
+			case *ast.IfStmt:
+				if mentionsRefusal(x.Body.List) {
+					collect(x.Cond, 0)
+				}
+			case *ast.CaseClause:
+				// switch el { case indexFile, layoutFile, blobsDir: refuse }
+				if mentionsRefusal(x.Body) {
+					for _, le := range x.List {
+						collect(le, 0)
+					}
+				}
+			}
 			return true
 		})
 	}
@@ -683,7 +718,18 @@ func parseSetDefaults(c *core.Ctx) *defaultsInfo {
 						}
 					}
 				case *ast.IfStmt:
-					walk(x.Body.List, append(append([]ast.Expr{}, guards...), x.Cond), false)
+					// every conjunct of the condition holds in the body
+					var conj func(e ast.Expr) []ast.Expr
+					conj = func(e ast.Expr) []ast.Expr {
+						if pe, ok := e.(*ast.ParenExpr); ok {
+							return conj(pe.X)
+						}
+						if be, ok := e.(*ast.BinaryExpr); ok && be.Op == token.LAND {
+							return append(conj(be.X), conj(be.Y)...)
+						}
+						return []ast.Expr{e}
+					}
+					walk(x.Body.List, append(append([]ast.Expr{}, guards...), conj(x.Cond)...), false)
 					if x.Else != nil {
 						if b, ok := x.Else.(*ast.BlockStmt); ok {
 							walk(b.List, guards, false)
@@ -866,9 +912,86 @@ func runFlags(c *core.Ctx) {
 	}
 	flags := map[string]flagInfo{}
 	fieldToPaths := map[string][]string{}
+	// leaf: the value assigned to the configuration path p mentions these option fields
+	leaf := func(fd *ast.FuncDecl, p string, value ast.Node) {
+		// leaf: every opts.<F> mentioned in the value; local variables are followed one step
+		var collect func(e ast.Node, depth int)
+		collect = func(e ast.Node, depth int) {
+			ast.Inspect(e, func(y ast.Node) bool {
+				switch z := y.(type) {
+				case *ast.SelectorExpr:
+					if sp := selPath(z); strings.HasPrefix(sp, "opts.") {
+						fieldToPaths[dropRoot(sp)] = append(fieldToPaths[dropRoot(sp)], p)
+						return false
+					}
+				case *ast.Ident:
+					if v, ok := pk.TypesInfo.Uses[z].(*types.Var); ok && v.Parent() != pk.Types.Scope() && !v.IsField() && depth < 2 && z.Name != "opts" {
+						// statements of the enclosing function that mention this local together with an option field
+						ast.Inspect(fd.Body, func(w ast.Node) bool {
+							switch s := w.(type) {
+							case *ast.AssignStmt:
+								for _, l := range s.Lhs {
+									if id, ok := l.(*ast.Ident); ok && pk.TypesInfo.ObjectOf(id) == v {
+										for _, rh := range s.Rhs {
+											collect(rh, depth+1)
+										}
+									}
+								}
+							case *ast.CallExpr:
+								if se, ok := s.Fun.(*ast.SelectorExpr); ok {
+									if id, ok := se.X.(*ast.Ident); ok && pk.TypesInfo.ObjectOf(id) == v {
+										for _, a := range s.Args {
+											collect(a, depth+1)
+										}
+									}
+								}
+							}
+							return true
+						})
+					}
+				}
+				return true
+			})
+		}
+		collect(value, 0)
+	}
 	for _, fd := range funcDecls(pk) {
+		fd := fd
 		ast.Inspect(fd.Body, func(n ast.Node) bool {
 			switch x := n.(type) {
+			case *ast.AssignStmt:
+				// field-by-field construction: conf.Storage.GC.Untagged = &opts.gcUntagged, on a local of type
+				// config.Config
+				for i, l := range x.Lhs {
+					se, ok := l.(*ast.SelectorExpr)
+					if !ok || i >= len(x.Rhs) {
+						continue
+					}
+					var rootID *ast.Ident
+					for e := ast.Expr(se); ; {
+						if s2, ok := e.(*ast.SelectorExpr); ok {
+							e = s2.X
+							continue
+						}
+						rootID, _ = e.(*ast.Ident)
+						break
+					}
+					if rootID == nil {
+						continue
+					}
+					v, ok := pk.TypesInfo.ObjectOf(rootID).(*types.Var)
+					if !ok || v.IsField() {
+						continue
+					}
+					t := v.Type()
+					if pt, ok := t.(*types.Pointer); ok {
+						t = pt.Elem()
+					}
+					if !isNamedType(t, c.P.Module+"/config", "Config") {
+						continue
+					}
+					leaf(fd, dropRoot(selPath(se)), x.Rhs[i])
+				}
 			case *ast.CallExpr:
 				se, ok := x.Fun.(*ast.SelectorExpr)
 				if !ok || !strings.HasSuffix(se.Sel.Name, "Var") || len(x.Args) < 4 {
@@ -941,46 +1064,7 @@ func runFlags(c *core.Ctx) {
 								}
 							}
 						}
-						// leaf: every opts.<F> mentioned in the value; local variables are followed one step
-						var collect func(e ast.Node, depth int)
-						collect = func(e ast.Node, depth int) {
-							ast.Inspect(e, func(y ast.Node) bool {
-								switch z := y.(type) {
-								case *ast.SelectorExpr:
-									if sp := selPath(z); strings.HasPrefix(sp, "opts.") {
-										fieldToPaths[dropRoot(sp)] = append(fieldToPaths[dropRoot(sp)], p)
-										return false
-									}
-								case *ast.Ident:
-									if v, ok := pk.TypesInfo.Uses[z].(*types.Var); ok && v.Parent() != pk.Types.Scope() && !v.IsField() && depth < 2 && z.Name != "opts" {
-										// statements of the enclosing function that mention this local together with an option field
-										ast.Inspect(fd.Body, func(w ast.Node) bool {
-											switch s := w.(type) {
-											case *ast.AssignStmt:
-												for _, l := range s.Lhs {
-													if id, ok := l.(*ast.Ident); ok && pk.TypesInfo.ObjectOf(id) == v {
-														for _, rh := range s.Rhs {
-															collect(rh, depth+1)
-														}
-													}
-												}
-											case *ast.CallExpr:
-												if se, ok := s.Fun.(*ast.SelectorExpr); ok {
-													if id, ok := se.X.(*ast.Ident); ok && pk.TypesInfo.ObjectOf(id) == v {
-														for _, a := range s.Args {
-															collect(a, depth+1)
-														}
-													}
-												}
-											}
-											return true
-										})
-									}
-								}
-								return true
-							})
-						}
-						collect(kv.Value, 0)
+						leaf(fd, p, kv.Value)
 					}
 				}
 				walk(x, "")
